@@ -250,8 +250,16 @@ func verif_C04_pivots(kind, n, perm int) {
 func verif_C04_pivots_fp(kind, n, perm int) {
 	pi := permutation(n, perm)
 	a := NullDenseMatrix(elemType(kind), n, n)
+	// every sign pattern of the entries (pivot search compares magnitudes)
+	signs := VerifChoice("signs", 1<<uint(n))
+	val := func(i int) float64 {
+		if (signs>>uint(i))&1 == 1 {
+			return -float64(2*i + 3)
+		}
+		return float64(2*i + 3)
+	}
 	for i := 0; i < n; i++ {
-		a.At(pi[i], i).SetFloat64(float64(2*i + 3))
+		a.At(pi[i], i).SetFloat64(val(i))
 	}
 	b := NullDenseVector(elemType(kind), n)
 	for i := 0; i < n; i++ {
@@ -264,7 +272,7 @@ func verif_C04_pivots_fp(kind, n, perm int) {
 	VerifAssert("nonsingular-permuted-diagonal-accepted", !p && err == nil)
 	if !p && err == nil {
 		for i := 0; i < n; i++ {
-			VerifAssertEqF("solution-entry", b.Float64At(i), 1/float64(2*i+3))
+			VerifAssertEqF("solution-entry", b.Float64At(i), 1/val(i))
 		}
 	}
 	VerifReach("pivots-fp")
@@ -272,11 +280,19 @@ func verif_C04_pivots_fp(kind, n, perm int) {
 
 // positive-definite inverse called twice with one caller-supplied InSitu: the
 // second result must not depend on what the first call left in the buffers
-func verif_C04_pd_reuse(kind, n int) {
+// first: 0 the first call is a positive-definite inversion too, 1 it is a general one
+// (which fills buffers that the triangular solver of the second call reads)
+func verif_C04_pd_reuse(kind, n, first int) {
 	inSitu := &matrixInverse.InSitu{}
 	a1, _ := symMatrix(kind, n, 2, "p")
 	var err error
-	p := VerifPanics(func() { _, err = matrixInverse.Run(a1, matrixInverse.PositiveDefinite{true}, inSitu) })
+	p := VerifPanics(func() {
+		if first == 1 {
+			_, err = matrixInverse.Run(a1, inSitu)
+		} else {
+			_, err = matrixInverse.Run(a1, matrixInverse.PositiveDefinite{true}, inSitu)
+		}
+	})
 	if p || err != nil {
 		return
 	}
@@ -322,5 +338,5 @@ func init() {
 	VerifRegister("verif_C04_determinant", func(a []int) { verif_C04_determinant(a[0], a[1]) })
 	VerifRegister("verif_C04_pivots", func(a []int) { verif_C04_pivots(a[0], a[1], a[2]) })
 	VerifRegister("verif_C04_pivots_fp", func(a []int) { verif_C04_pivots_fp(a[0], a[1], a[2]) })
-	VerifRegister("verif_C04_pd_reuse", func(a []int) { verif_C04_pd_reuse(a[0], a[1]) })
+	VerifRegister("verif_C04_pd_reuse", func(a []int) { verif_C04_pd_reuse(a[0], a[1], a[2]) })
 }
